@@ -37,6 +37,15 @@ def main():
             deleg.add(f)
     except Exception:
         pass
+    # methods of the combined objects whose body is NOT a delegation (coq/Delegations.v, regenerated on every run)
+    own = set()
+    try:
+        txt = open(os.path.join(HERE, "..", "coq", "Delegations.v")).read()
+        files = {"vanilla": "src/vanilla_header/mod.rs", "tbc": "src/tbc_header/mod.rs", "wrath_client": "src/wrath_header/mod.rs", "wrath_server": "src/wrath_header/mod.rs"}
+        for tag, body in re.findall(r"Definition delegations_(\w+)[^\[]*\[(.*?)\]\.", txt, re.S):
+            for mname in re.findall(r'\("(\w+)", "", "own body"', body): own.add((files[tag], mname))
+    except OSError:
+        pass
     rows, tot, tr, dl = [], 0, 0, 0
     for root, _, fs in sorted(os.walk(os.path.join(REPO, "src"))):
         for f in sorted(fs):
@@ -51,7 +60,7 @@ def main():
                 key = (rel, n)
                 if key in translated and len(translated[key]) >= seen[n]: t_.append(n)
                 elif key in translated and rel in deleg: d_.append(n)
-                elif rel in deleg and n in ("encrypt", "decrypt", "decrypter", "encrypter", "write_encrypted_server_header", "write_encrypted_client_header",
+                elif rel in deleg and (rel, n) not in own and n in ("encrypt", "decrypt", "decrypter", "encrypter", "write_encrypted_server_header", "write_encrypted_client_header",
                                             "encrypt_server_header", "encrypt_client_header", "read_and_decrypt_server_header", "read_and_decrypt_client_header",
                                             "decrypt_server_header", "decrypt_client_header", "attempt_decrypt_server_header", "decrypt_large_server_header"):
                     d_.append(n)
